@@ -142,5 +142,22 @@ CHECKS = {
           "whose outcomes are observed inputs. One finding listed (ServerBase lets a serialiser exception escape).",
   'technique': 'Coq proof over a statement-language model of the pipeline generated from source (pipeline translator) + path exploration with soundness lemma + induction over registration programs + trace correspondence + listener-level oracle',
  },
+ 'C03': {
+  'text': "Theorems over an executable model of SimpleDictDocument/HttpRpc/_parse_qs. For every covered signature (nested "
+          "objects, arrays of objects, primitive arrays, any hier_delim), both strict_arrays settings, every conformant sparse "
+          "value and every permutation of its spelled pairs, the user function receives exactly that value with every array in "
+          "index order (sorted-array refinement of both branches + _s2cmi's rank invariant), end to end through every "
+          "admissible query-string encoding. Conversely the flattened form of an object maps back to an equal object. The "
+          "declared response headers reach start_response member by member with the exact body. The pinned tree's string sort "
+          "and the values the notation cannot carry are refuted with witnesses.",
+  'design_ref': 'DESIGN.md section 6 (C03)',
+  'note': TB + "The flatkeys translator proves the source tokens (_s2cmi as a function, the regex literal, the strict comparisons, "
+          "the empty marker, the index format, the _parse_qs separators) equal to the model's. Python re, sorted, dict order "
+          "and unquote are transcribed and tied by differential evaluation through real WSGI GETs. Theorems cover "
+          "validator=None, GET query strings, text leaves (codecs are C08) and wf_sig signatures (no '[' in names or delimiter, "
+          "distinct flat keys, non-recursive); the soft validator and non-ASCII escapes are oracle-only; POST needs werkzeug "
+          "and is unexercised. Two notation limits listed as findings (empty primitive array, all-None object).",
+  'technique': 'Coq proof (permutation invariance via sorted-array refinement) over a Gallina model + source-token translator (flatkeys) + differential correspondence through WsgiApplication + e2e oracle',
+ },
 }
 NOT_APPLICABLE = {}
